@@ -64,7 +64,7 @@ inductive Res (α : Type) where
   | ok (a : α)
   | err
   | panic
-  deriving Repr
+  deriving Repr, DecidableEq
 
 def Res.bind {α γ : Type} (r : Res α) (f : α → Res γ) : Res γ :=
   match r with
